@@ -27,8 +27,10 @@ def mk_query(prog, order, desc, fnkey=False):
     cnt = E.mk_expr(prog, function=some(fn_enum(prog, 'Count')), left=some(BoxV(E.expr_field(prog, 'Name'))), args=some(Seq([])))
     sm = E.mk_expr(prog, function=some(fn_enum(prog, 'Sum')), left=some(BoxV(E.expr_field(prog, 'Size'))), args=some(Seq([])))
     fields = [ext(), cnt, sm]
+    if order == 'keylast':
+        fields = [cnt, sm, ext()]       # the key is selected last: its select-list position differs from its ORDER BY ordinal
     ordering = []
-    if order == 'key':
+    if order in ('key', 'keylast'):
         ordering = [ext()]
     elif order == 'count':
         ordering = [deep_clone(None, cnt)] if False else [E.mk_expr(prog, function=some(fn_enum(prog, 'Count')), left=some(BoxV(E.expr_field(prog, 'Name'))), args=some(Seq([])))]
@@ -71,11 +73,13 @@ def cli_replay(rows_spec, order, desc):
         tree = {}
         for i, (k, sz) in enumerate(rows_spec):
             tree['f%d%s' % (i, ('.' + k) if k else '')] = {'size': sz}
-        argv = ['ext,', 'count(name),', 'sum(size)', 'from', '.', 'group', 'by', 'ext']
+        argv = (['count(name),', 'sum(size),', 'ext'] if order == 'keylast' else ['ext,', 'count(name),', 'sum(size)']) + ['from', '.', 'group', 'by', 'ext']
         if order:
-            argv += ['order', 'by', {'key': 'ext', 'count': 'count(name)', 'sum': 'sum(size)'}[order]] + (['desc'] if desc else [])
+            argv += ['order', 'by', {'key': 'ext', 'keylast': 'ext', 'count': 'count(name)', 'sum': 'sum(size)'}[order]] + (['desc'] if desc else [])
         r = common.run_cli(exe, argv, tree)
         got = [tuple(l.split('\t')) for l in r['stdout'].split('\n')[:-1]]
+        if order == 'keylast':
+            got = [(g[2], g[0], g[1]) if len(g) == 3 else g for g in got]
         exp = {}
         for k, sz in rows_spec:
             c, s_ = exp.get(k, (0, 0)); exp[k] = (c + 1, s_ + sz)
@@ -83,7 +87,7 @@ def cli_replay(rows_spec, order, desc):
         bad = sorted(got) != sorted(want) or r['status'] != 0
         det = 'fselect %s over %r -> %r ; expected rows %r (status %s, stderr %r)' % (' '.join(argv), rows_spec, got, sorted(want), r['status'], r['stderr'][:200])
         if not bad and order:
-            idx = {'key': 0, 'count': 1, 'sum': 2}[order]
+            idx = {'key': 0, 'keylast': 0, 'count': 1, 'sum': 2}[order]
             col = [g[idx] for g in got]
             keyf = (lambda x: x) if order == 'key' else (lambda x: int(x))
             srt = sorted(col, key=keyf, reverse=desc)
@@ -196,7 +200,7 @@ def main(sess):
     new = prog.find('Searcher', 'new')
     Fs = E.struct_fields(prog, 'Searcher')
     for order, desc, fnkey in [(None, False, False), ('key', False, False), ('key', True, False), ('count', False, False), ('count', True, False),
-                               ('sum', False, False), ('sum', True, False), (None, False, True)]:
+                               ('sum', False, False), ('sum', True, False), (None, False, True), ('keylast', False, False), ('keylast', True, False)]:
         fam = 'grouped/' + (('order by %s %s' % (order, 'desc' if desc else 'asc')) if order else 'unordered') + (' (key length(name))' if fnkey else '')
         ex = sess.executor(overrides(), unwind=3 * N + 8, maxsteps=400000)
         box = {}
@@ -246,6 +250,8 @@ def main(sess):
                 conds = []
                 gotkeys = []
                 struct_ok = True
+                if order == 'keylast':
+                    got = [[r[2], r[0], r[1]] for r in got if len(r) == 3] if all(len(r) == 3 for r in got) else got
                 for row in got:
                     if len(row) != 3:
                         struct_ok = False; break
@@ -267,7 +273,7 @@ def main(sess):
                             conds.append(s_ == int(sv.s))
                         else:
                             conds.append(BoolVal(False))
-                    if order == 'key':
+                    if order in ('key', 'keylast'):
                         srt = sorted(gotkeys, reverse=desc)
                         conds.append(BoolVal(gotkeys == srt))
                     elif order == 'count':
@@ -298,4 +304,4 @@ def main(sess):
             sess.discharged('%s: 0..%d rows, every key assignment: one row per distinct key, COUNT and SUM of the block%s' % (fam, N, ', sorted' if order else ''),
                             family=fam, queries=box.get('paths', 1))
     from drivers import e2e
-    e2e.family_for(sess, 'C08')
+    e2e.family_for(sess, 'C08', quick_n=3)
